@@ -1693,9 +1693,13 @@ class Scheduler:
         # Set eval_args on job.
         job.eval_args = eval_args
 
-        # Preprocess arguments before sending them to task function.
-        args, kwargs = job.eval_args
-        args, kwargs = job.args = self._preprocess_args(job, args, kwargs)
+        # Preprocess arguments before sending them to task function. A job that is re-triggered
+        # after waiting for resource limits has been preprocessed already (preprocessing forks
+        # Handles, which must happen once per job).
+        if job.args is None:
+            args, kwargs = job.eval_args
+            job.args = self._preprocess_args(job, args, kwargs)
+        args, kwargs = job.args
 
         # Check cache using eval_hash as key.
         job.eval_hash, job.args_hash = hash_args_eval(self.type_registry, job.task, args, kwargs)
